@@ -203,6 +203,9 @@ def generate(repo):
     line_color_sources(find_function(tree, "Plotter.calc_line_colors"))
     from . import pins
     n = pins.check(repo, SRC)
+    # the array -> Dataset conversion behind the auto_* variants (which array is transposed when y_z is given as
+    # (x, z); the variants are generated with a one-dimensional x only)
+    n += pins.check(repo, "xyzpy/manage.py")
 
     def keys(l):
         return "[" + "; ".join(KEY[k] for k in l) + "]"
